@@ -254,9 +254,9 @@ func (E *Engine) checkRequires(m *Machine, ev *Evaluator, c *Contract, site stri
 		props := rq.Props
 		if len(props) == 0 && m.Top != nil && m.Top.C != nil {
 			props = allProps(m.Top.C)
-		} else if rq.CallSiteOnly && m.Top != nil && m.Top.C != nil && len(m.Top.C.Covers) > 0 {
-			// the caller's contract claims this callee demand under further properties (`covers`)
-			props = append(append([]string{}, props...), m.Top.C.Covers...)
+		} else if rq.CallSiteOnly && m.Top != nil && m.Top.C != nil && len(m.Top.C.Promote[rq.Label]) > 0 {
+			// the caller's contract claims this callee demand under further properties (`promote`)
+			props = append(append([]string{}, props...), m.Top.C.Promote[rq.Label]...)
 		}
 		o := &Obligation{Name: fmt.Sprintf("%s:pre@%s:%s", m.Top.Name, site, rq.Label), Func: m.Top.Name, Kind: "pre", Props: props, Reading: rq.Reading, Goal: g, Src: rq.Src}
 		E.addObl(m, o)
@@ -362,6 +362,11 @@ func allProps(c *Contract) []string {
 	}
 	for _, p := range c.Covers {
 		set[p] = true
+	}
+	for _, ps := range c.Promote {
+		for _, p := range ps {
+			set[p] = true
+		}
 	}
 	for _, r := range c.Requires {
 		if r.CallSiteOnly {
